@@ -18,7 +18,7 @@ use vx_core::{Chooser, Digest, Violation};
 use crate::kit::*;
 
 const LO: u16 = 49152;
-const HI: u16 = 49155;
+const HI_FULL: u16 = 49155;
 
 #[derive(Clone, Copy, Debug, PartialEq, Eq)]
 enum Cmd {
@@ -28,6 +28,9 @@ enum Cmd {
     TcpListenLo(u16),
     TcpListen(u16),
     TcpConnect,
+    /// connect to the peer and open with "RX": the peer reads one byte and drops the connection
+    /// with the other one unread, which resets it; the stream object is kept
+    ConnectReset,
     Drop(usize),
     /// split the k-th live object (a stream), shut its write half down, drop the write
     /// half and keep the read half: the stream stays live
@@ -58,12 +61,18 @@ enum MKind {
     Listener,
     Stream,
     HalfClosedStream,
+    /// a stream object whose connection the peer has reset: not live, holds no port
+    ResetStream,
 }
 
-pub fn ports_scenario(ch: &mut Chooser, thorough: bool) -> Exec {
+pub fn ports_scenario(ch: &mut Chooser, thorough: bool, reset_mode: bool) -> Exec {
+    // `reset_mode`: a two-port range and a short menu around streams that the peer has reset
+    // while the application still holds them (their port is free again; dropping the stale
+    // handle later must not disturb a newer stream on the same port and 4-tuple)
     let depth = if thorough { 7 } else { 6 };
+    let hi: u16 = if reset_mode { LO + 1 } else { HI_FULL };
     let mut b = builder(1);
-    b.ephemeral_ports(LO..=HI)
+    b.ephemeral_ports(LO..=hi)
         .min_message_latency(std::time::Duration::from_millis(1))
         .max_message_latency(std::time::Duration::from_millis(1))
         .tcp_capacity(16);
@@ -78,6 +87,14 @@ pub fn ports_scenario(ch: &mut Chooser, thorough: bool) -> Exec {
             // hold the connection until the other side closes it, then let it go (so a
             // later connection may reuse the 4-tuple)
             tokio::task::spawn_local(async move {
+                // a connection that opens with the bytes "RX" is dropped after its first byte
+                // has been read: the second one is unread, so the drop resets the connection
+                let mut first = [0u8; 1];
+                match tokio::io::AsyncReadExt::read(&mut s, &mut first).await {
+                    Ok(1) if first[0] == b'R' => return,
+                    Ok(0) | Err(_) => return,
+                    _ => {}
+                }
                 let mut b = [0u8; 8];
                 while let Ok(n) = tokio::io::AsyncReadExt::read(&mut s, &mut b).await {
                     if n == 0 {
@@ -138,6 +155,17 @@ pub fn ports_scenario(ch: &mut Chooser, thorough: bool) -> Exec {
                                 let port = s.local_addr().unwrap().port();
                                 objs.push(Some(Obj::Stream(s)));
                                 format!("ok {port}")
+                            }
+                            Err(e) => format!("err {}", errk(&e)),
+                        },
+                        Cmd::ConnectReset => match TcpStream::connect(("peer", 80)).await {
+                            Ok(mut s) => {
+                                let port = s.local_addr().unwrap().port();
+                                let w = tokio::io::AsyncWriteExt::write_all(&mut s, b"RX").await;
+                                // there and back again: the reset has arrived after this
+                                tokio::time::sleep(std::time::Duration::from_millis(4)).await;
+                                objs.push(Some(Obj::Stream(s)));
+                                format!("ok {port} write {}", if w.is_ok() { "ok" } else { "err" })
                             }
                             Err(e) => format!("err {}", errk(&e)),
                         },
@@ -220,11 +248,18 @@ pub fn ports_scenario(ch: &mut Chooser, thorough: bool) -> Exec {
     let mut obs: Vec<String> = vec![];
     let mut feats: Vec<&'static str> = vec![];
     let mut violation: Option<Violation> = None;
-    let in_use = |live: &Vec<(MKind, u16)>| -> BTreeSet<u16> { live.iter().map(|x| x.1).collect() };
+    let in_use = |live: &Vec<(MKind, u16)>| -> BTreeSet<u16> { live.iter().filter(|x| x.0 != MKind::ResetStream).map(|x| x.1).collect() };
 
     'run: for _ in 0..depth {
         // menu
-        let mut menu: Vec<(String, Option<Cmd>)> = vec![
+        let mut menu: Vec<(String, Option<Cmd>)> = if reset_mode {
+            vec![
+                ("udp bind :0".into(), Some(Cmd::UdpBind(0))),
+                ("tcp connect peer:80".into(), Some(Cmd::TcpConnect)),
+                ("tcp connect peer:80, send two bytes of which the peer reads one before it drops the connection (reset), keep the stream".into(), Some(Cmd::ConnectReset)),
+            ]
+        } else {
+            vec![
             ("udp bind :0".into(), Some(Cmd::UdpBind(0))),
             ("udp bind :49153".into(), Some(Cmd::UdpBind(LO + 1))),
             ("tcp listen :0".into(), Some(Cmd::TcpListen(0))),
@@ -233,22 +268,27 @@ pub fn ports_scenario(ch: &mut Chooser, thorough: bool) -> Exec {
             ("udp bind 127.0.0.1:49154".into(), Some(Cmd::UdpBindLo(LO + 2))),
             ("tcp listen 127.0.0.1:49154".into(), Some(Cmd::TcpListenLo(LO + 2))),
             ("crash + bounce".into(), None),
-        ];
+        ]
+        };
         for k in 0..live.len().min(4) {
             menu.push((format!("drop live object #{k}"), Some(Cmd::Drop(k))));
         }
-        if let Some(k) = live.iter().position(|x| x.0 == MKind::Stream) {
+        if reset_mode {
+            // (no further letters)
+        } else if let Some(k) = live.iter().position(|x| x.0 == MKind::Stream) {
             menu.push((format!("split live object #{k} (a stream), shut down and drop its write half, keep the read half"), Some(Cmd::HalfClose(k))));
         }
-        if let Some(k) = live.iter().position(|x| x.0 == MKind::Listener) {
+        if let Some(k) = live.iter().position(|x| x.0 == MKind::Listener && !reset_mode) {
             // a wildcard listener is reachable through the host's own address as well
             menu.push((format!("connect to live object #{k} (own listener) via 127.0.0.1, accept, one unread byte, drop both ends"), Some(Cmd::SelfConn(k, false))));
             if obs.iter().any(|o| o.starts_with("tcp listen :")) {
                 menu.push((format!("connect to live object #{k} (own listener) via the host's own address, accept, one unread byte, drop both ends"), Some(Cmd::SelfConn(k, true))));
             }
         }
-        let crash_mid_connect = menu.len();
-        menu.push(("tcp connect peer:80, crash while the SYN is in flight, bounce".into(), None));
+        let crash_mid_connect = if reset_mode { usize::MAX } else { menu.len() };
+        if !reset_mode {
+            menu.push(("tcp connect peer:80, crash while the SYN is in flight, bounce".into(), None));
+        }
         let pick = ch.choose("op", menu.len());
         let (desc, cmd) = menu[pick].clone();
         obs.push(desc.clone());
@@ -259,7 +299,7 @@ pub fn ports_scenario(ch: &mut Chooser, thorough: bool) -> Exec {
                 if let Err(e) = vx_core::catch(|| sim.step()).unwrap_or_else(|p| Err(p.into())) {
                     // every port taken: the documented exhaustion panic
                     let used = in_use(&live);
-                    if (LO..=HI).all(|p| used.contains(&p)) {
+                    if (LO..=hi).all(|p| used.contains(&p)) {
                         feats.push("exhaustion-panic");
                     } else {
                         violation = Some(Violation::new("sim-error", e.to_string()));
@@ -287,13 +327,13 @@ pub fn ports_scenario(ch: &mut Chooser, thorough: bool) -> Exec {
         };
         // expectation
         let used = in_use(&live);
-        let range_full = (LO..=HI).all(|p| used.contains(&p));
-        let expect_panic = matches!(cmd, Cmd::UdpBind(0) | Cmd::TcpListen(0) | Cmd::TcpConnect | Cmd::SelfConn(..)) && range_full;
+        let range_full = (LO..=hi).all(|p| used.contains(&p));
+        let expect_panic = matches!(cmd, Cmd::UdpBind(0) | Cmd::TcpListen(0) | Cmd::TcpConnect | Cmd::ConnectReset | Cmd::SelfConn(..)) && range_full;
         st.borrow_mut().results.clear();
         st.borrow_mut().cmds.push_back(cmd);
         wake.notify_one();
         let mut panicked = None;
-        for _ in 0..if matches!(cmd, Cmd::SelfConn(..)) { 10 } else { 4 } {
+        for _ in 0..if matches!(cmd, Cmd::SelfConn(..) | Cmd::ConnectReset) { 10 } else { 4 } {
             match vx_core::catch(|| sim.step()) {
                 Ok(Ok(_)) => {}
                 Ok(Err(e)) => {
@@ -313,7 +353,7 @@ pub fn ports_scenario(ch: &mut Chooser, thorough: bool) -> Exec {
             } else {
                 violation = Some(Violation::new(
                     "spurious-exhaustion",
-                    format!("`{desc}` panicked ({p}) although ports {:?} of {LO}..={HI} are free (in use: {:?})", (LO..=HI).filter(|p| !used.contains(p)).collect::<Vec<_>>(), used),
+                    format!("`{desc}` panicked ({p}) although ports {:?} of {LO}..={hi} are free (in use: {:?})", (LO..=hi).filter(|p| !used.contains(p)).collect::<Vec<_>>(), used),
                 ));
             }
             break 'run;
@@ -323,7 +363,7 @@ pub fn ports_scenario(ch: &mut Chooser, thorough: bool) -> Exec {
         if expect_panic {
             violation = Some(Violation::new(
                 "duplicate-port",
-                format!("`{desc}` returned `{res}` although every port of {LO}..={HI} is in use ({:?}): it must have been given a port that is already taken", live),
+                format!("`{desc}` returned `{res}` although every port of {LO}..={hi} is in use ({:?}): it must have been given a port that is already taken", live),
             ));
             break 'run;
         }
@@ -333,11 +373,11 @@ pub fn ports_scenario(ch: &mut Chooser, thorough: bool) -> Exec {
                 let kind = if udp { MKind::Udp } else { MKind::Listener };
                 if p == 0 {
                     match res.strip_prefix("ok ").and_then(|x| x.parse::<u16>().ok()) {
-                        Some(port) if (LO..=HI).contains(&port) && !used.contains(&port) => live.push((kind, port)),
+                        Some(port) if (LO..=hi).contains(&port) && !used.contains(&port) => live.push((kind, port)),
                         _ => {
                             violation = Some(Violation::new(
                                 "duplicate-port",
-                                format!("`{desc}` returned `{res}`; expected an ephemeral port in {LO}..={HI} not in use by either protocol (in use: {:?})", live),
+                                format!("`{desc}` returned `{res}`; expected an ephemeral port in {LO}..={hi} not in use by either protocol (in use: {:?})", live),
                             ));
                             break 'run;
                         }
@@ -359,7 +399,22 @@ pub fn ports_scenario(ch: &mut Chooser, thorough: bool) -> Exec {
                 }
             }
             Cmd::TcpConnect => match res.strip_prefix("ok ").and_then(|x| x.parse::<u16>().ok()) {
-                Some(port) if (LO..=HI).contains(&port) && !used.contains(&port) => live.push((MKind::Stream, port)),
+                Some(port) if (LO..=hi).contains(&port) && !used.contains(&port) => live.push((MKind::Stream, port)),
+                _ => {
+                    violation = Some(Violation::new(
+                        "duplicate-port",
+                        format!("`{desc}` returned `{res}`; expected a stream on an ephemeral port not in use (in use: {:?})", live),
+                    ));
+                    break 'run;
+                }
+            },
+            Cmd::ConnectReset => match res.strip_suffix(" write ok").and_then(|x| x.strip_prefix("ok ")).and_then(|x| x.parse::<u16>().ok()) {
+                // the peer has reset the connection: the stream the application still holds is
+                // no longer live, its port is free again
+                Some(port) if (LO..=hi).contains(&port) && !used.contains(&port) => {
+                    live.push((MKind::ResetStream, port));
+                    feats.push("reset-stream-kept");
+                }
                 _ => {
                     violation = Some(Violation::new(
                         "duplicate-port",
@@ -376,7 +431,7 @@ pub fn ports_scenario(ch: &mut Chooser, thorough: bool) -> Exec {
             }
             Cmd::SelfConn(..) => {
                 // a connection needs a free ephemeral port for its connecting end
-                if !res.starts_with("self-connected") && !(res.starts_with("err") && (LO..=HI).all(|p| used.contains(&p))) {
+                if !res.starts_with("self-connected") && !(res.starts_with("err") && (LO..=hi).all(|p| used.contains(&p))) {
                     // the listener may be bound to 127.0.0.1 only: reaching it through the
                     // host's own address is refused
                     if !res.contains("ConnectionRefused") {
@@ -412,7 +467,7 @@ pub fn ports_scenario(ch: &mut Chooser, thorough: bool) -> Exec {
     }
     if let Some(v) = violation.as_mut() {
         v.sig = v.clause.to_string();
-        v.scenario = format!("c15-ports tier={}", if thorough { "thorough" } else { "quick" });
+        v.scenario = format!("c15-ports{} tier={}", if reset_mode { " reset-mode (two-port range)" } else { "" }, if thorough { "thorough" } else { "quick" });
         v.actions = obs.clone();
     }
     Exec { outcome: Digest::of64(&obs), violation, features: feats }
